@@ -10,10 +10,10 @@ from envlib import Adapter, Config, choose
 class A(Adapter):
     name = "cleaner"
     lean = "cleaner"
-    serves = {"C04", "C05", "C07", "C08", "C09", "C10", "C11", "C12"}
+    serves = {"C01", "C04", "C05", "C07", "C08", "C09", "C10", "C11", "C12"}
     terminate_on_invalid = True
     max_steps = 60
-    ops = ("state", "step", "judge", "instance")
+    ops = ("state", "step", "judge", "instance", "bounds")
     state_fields = ["grid", "agents_locations", "action_mask", "step_count"]
 
     def configs(self, tier):
